@@ -33,8 +33,11 @@ pub struct Shared {
     pub events: Vec<Ev>,
     pub verdict_tx: HashMap<String, Sender<Verdict>>,
     pub invalidators: HashMap<String, Arc<dyn Fn() -> bool + Send + Sync>>,
-    /// (point, target) -> gate release channel: the instrumented code waits on it
-    pub gates: HashMap<(String, String), Receiver<()>>,
+    /// (point, target) pairs at which the instrumented code is held until the driver releases it
+    pub gate_on: std::collections::HashSet<(String, String)>,
+    pub gate_tx: HashMap<(String, String), Sender<()>>,
+    /// released by the driver before the instrumented code got to ask for its gate
+    pub gate_released: std::collections::HashSet<(String, String)>,
     pub virtual_builds: bool,
     pub real_watchers: bool,
 }
@@ -71,7 +74,14 @@ impl Probe for Fwd {
         self.0.cv.notify_all();
     }
     fn gate(&self, point: &str, target: &str) -> Option<Gate> {
-        let rx = self.0.sh.lock().unwrap().gates.get(&(point.to_string(), target.to_string())).cloned()?;
+        let key = (point.to_string(), target.to_string());
+        let mut sh = self.0.sh.lock().unwrap();
+        if !sh.gate_on.contains(&key) || sh.gate_released.remove(&key) {
+            return None;
+        }
+        let (tx, rx) = channel::bounded(1);
+        sh.gate_tx.insert(key, tx);
+        drop(sh);
         Some(Box::pin(async move {
             let _ = rx.recv().await;
         }))
@@ -99,7 +109,9 @@ impl HProbe {
         sh.events.clear();
         sh.verdict_tx.clear();
         sh.invalidators.clear();
-        sh.gates.clear();
+        sh.gate_on.clear();
+        sh.gate_tx.clear();
+        sh.gate_released.clear();
         sh.virtual_builds = virtual_builds;
         sh.real_watchers = real_watchers;
     }
